@@ -207,7 +207,7 @@ func (fr *Frame) selectPath(t Term, pe PathElem, pos token.Pos) Term {
 		si, ok := ex.P.sig.Structs[t.Sort]
 		if ok {
 			f := si.Fields[pe.field]
-			return Term{"(" + f.Sel + " " + t.S + ")", f.Sort}
+			return Term{selOf(si, pe.field, t.S), f.Sort}
 		}
 		ex.unsup(pos, "field access on sort %s", t.Sort)
 		return ex.fresh("fld", "Int")
@@ -235,7 +235,7 @@ func (fr *Frame) updatePath(t Term, path []PathElem, v Term, pos token.Pos) Term
 		}
 		parts := make([]string, len(si.Fields))
 		for i, f := range si.Fields {
-			cur := Term{"(" + f.Sel + " " + t.S + ")", f.Sort}
+			cur := Term{selOf(si, i, t.S), f.Sort}
 			if i == pe.field {
 				cur = fr.updatePath(cur, path[1:], v, pos)
 			}
@@ -676,7 +676,7 @@ func (bs *blockState) fieldPtr(p *Ptr, st *types.Struct, field int, sortName str
 				return &unknownVal{"slice elem"}
 			}
 			f := si.Fields[k]
-			holder := Term{"(" + f.Sel + " " + base.S + ")", f.Sort}
+			holder := Term{selOf(si, k, base.S), f.Sort}
 			c := ex.newCell("ro_"+f.Name, f.Sort)
 			bs.st.cells[c] = holder
 			return &Ptr{cell: c}
@@ -711,7 +711,7 @@ func (bs *blockState) fieldOf(base Term, st *types.Struct, field int, pos token.
 		k, ok := bs.fr.fieldIndex(st, field, base.Sort)
 		if ok {
 			f := si.Fields[k]
-			return Term{"(" + f.Sel + " " + base.S + ")", f.Sort}
+			return Term{selOf(si, k, base.S), f.Sort}
 		}
 	}
 	if isOpaqueSort(base.Sort) || base.Sort == "Header" {
@@ -917,6 +917,16 @@ func (bs *blockState) typeAssert(x *ssa.TypeAssert) {
 		}
 		return
 	}
+	// tx context values: ctx.Context().Value("tx_hash"/"msg_index") are functions of the sdk context
+	if t, ok := bs.txContextValue(x); ok {
+		ex.trusted["type assertion at "+ex.P.posString(pos)+" assumed to succeed (A4: tx context values)"] = true
+		if x.CommaOk {
+			fr.vals[x] = &Tuple{[]Val{t, ex.fresh("assert_ok", "Bool")}}
+		} else {
+			fr.vals[x] = t
+		}
+		return
+	}
 	// unknown dynamic type: the asserted value is arbitrary
 	var res Val
 	if pt, ok := x.AssertedType.Underlying().(*types.Pointer); ok {
@@ -1042,4 +1052,38 @@ func simplifyAdd(a, b Term) Term {
 
 func isOpaqueSort(s string) bool {
 	return s == "Iface" || s == "Func" || strings.HasPrefix(s, "Opaque_") || strings.HasPrefix(s, "Map_")
+}
+
+// txContextValue recognises ctx.Context().Value(K).(T) for the two keys the ante handler sets (types.TxHash, types.MsgIndex).
+func (bs *blockState) txContextValue(x *ssa.TypeAssert) (Term, bool) {
+	call, ok := x.X.(*ssa.Call)
+	if !ok || !call.Call.IsInvoke() || call.Call.Method.Name() != "Value" || len(call.Call.Args) != 1 {
+		return Term{}, false
+	}
+	mi, ok := call.Call.Args[0].(*ssa.MakeInterface)
+	if !ok {
+		return Term{}, false
+	}
+	k, ok := mi.X.(*ssa.Const)
+	if !ok || k.Value == nil || k.Value.Kind() != constant.String {
+		return Term{}, false
+	}
+	rc, ok := call.Call.Value.(*ssa.Call)
+	if !ok || rc.Call.IsInvoke() || len(rc.Call.Args) != 1 {
+		return Term{}, false
+	}
+	if f := rc.Call.StaticCallee(); f == nil || f.Name() != "Context" {
+		return Term{}, false
+	}
+	cv, ok := bs.fr.value(rc.Call.Args[0]).(Term)
+	if !ok || cv.Sort != "Ctx" {
+		return Term{}, false
+	}
+	switch constant.StringVal(k.Value) {
+	case "tx_hash":
+		return Term{S: "(ctxTxHash " + cv.S + ")", Sort: "Bytes"}, true
+	case "msg_index":
+		return Term{S: "(ctxMsgIndex " + cv.S + ")", Sort: "Int"}, true
+	}
+	return Term{}, false
 }
